@@ -198,15 +198,29 @@ const watchdog = 5 * time.Minute
 // execute runs one case under a watchdog: an operation that does not return
 // (deadlock inside gorm / database/sql) is reported instead of hanging the run.
 func execute(c Case) *result {
-	done := make(chan *result, 1)
-	go func() { done <- executeRaw(c) }()
-	select {
-	case r := <-done:
-		return r
-	case <-time.After(watchdog):
-		return &result{hung: true}
+	try := func() *result {
+		done := make(chan *result, 1)
+		go func() { done <- executeRaw(c) }()
+		select {
+		case r := <-done:
+			return r
+		case <-time.After(watchdog):
+			return nil
+		}
 	}
+	if r := try(); r != nil {
+		return r
+	}
+	// only a hang that reproduces is a verdict (no wall-clock oracle)
+	fmt.Fprintf(os.Stderr, "WATCHDOG: case did not return within %s: %s\n", watchdog, c.String())
+	if r := try(); r != nil {
+		atomic.AddInt64(&hangsNotReproduced, 1)
+		return r
+	}
+	return &result{hung: true}
 }
+
+var hangsNotReproduced int64
 
 func executeRaw(c Case) *result {
 	r := &result{}
@@ -478,7 +492,7 @@ type finding struct{ aspect, msg string }
 
 func verdicts(c Case, r *result) []finding {
 	if r.hung {
-		return []finding{{"hang", "the operation did not return within 5 minutes (deadlock)"}}
+		return []finding{{"hang", "the operation did not return within 5 minutes, twice (deadlock)"}}
 	}
 	var out []finding
 	if c.Cancelled {
@@ -571,7 +585,12 @@ func main() {
 	if len(args.Extra) > 0 {
 		only = args.Extra[0]
 	}
-	ops := opcat.All()
+	var ops []opcat.Op
+	for _, op := range opcat.All() {
+		if !op.Fails { // operations that fail by themselves belong to C05 only
+			ops = append(ops, op)
+		}
+	}
 	var cases []Case
 	for _, op := range ops {
 		if only != "" && op.Name != only {
@@ -595,7 +614,7 @@ func main() {
 	// handle-derivation histories
 	histOps := map[string]bool{}
 	for _, n := range []string{"create-full-graph", "batches-3x2-graph", "save-absent-key-with-company", "updates-model-with-associations",
-		"delete-select-pets", "first", "count", "rows-scanrows", "exec", "first-or-create-missing", "preload-nested",
+		"delete-select-pets", "delete-returning-columns", "updates-returning-columns-many-rows", "first", "count", "rows-scanrows", "exec", "first-or-create-missing", "preload-nested",
 		"joins-preload-through-join", "find-in-batches", "assoc-append-m2m", "assoc-replace-has-many", "assoc-count-m2m"} {
 		if _, ok := opcat.ByName(n); !ok {
 			run.HarnessError("history subset names an unknown operation %s", n)
@@ -646,6 +665,31 @@ func main() {
 										Derive: k.name, Use: use, OtherFirst: first, OtherCancelled: cv[1]})
 									nHist++
 								}
+							}
+						}
+					}
+				}
+			}
+		}
+	}
+
+	// quick: both executor branches of the write finishers (RETURNING/scan vs
+	// exec) in every mode — the writes also on the dialector without RETURNING and
+	// with SkipDefaultTransaction (thorough has the full cross product above)
+	if !thorough {
+		for _, op := range ops {
+			if !op.IsWrite() || (only != "" && op.Name != only) {
+				continue
+			}
+			for _, hd := range handles {
+				for _, p := range prepares {
+					for _, cancelled := range []bool{false, true} {
+						for _, w := range wraps {
+							cases = append(cases, Case{Op: op.Name, Handle: hd, Wrap: w, Prepare: p, Cancelled: cancelled, Dialect: "lastinsertid"})
+						}
+						for _, w := range []string{"direct", "tx-depth1"} {
+							for _, dl := range []string{"returning", "lastinsertid"} {
+								cases = append(cases, Case{Op: op.Name, Handle: hd, Wrap: w, Prepare: p, Cancelled: cancelled, Dialect: dl, SkipTx: true})
 							}
 						}
 					}
@@ -777,7 +821,7 @@ func main() {
 	run.Finish(map[string]interface{}{
 		"evaluations":         st.cases,
 		"distinct_nontrivial": distinct.Len(),
-		"rule":                fmt.Sprintf("every operation of the catalogue (%d: %d writes, reads/preloads/joins/FindInBatches/raw, association mode) x handle binding %v x wrapper %v x PrepareStmt %v x {live, already cancelled} context x dialector %v x SkipDefaultTransaction %v, plus handle-derivation histories (parent bound to one context; child := parent.<%d derivation kinds: Session{NewDB,Context}, Session{Context}, WithContext, Session{PrepareStmt,Context}, …, Begin, Debug>, bound to another marked context, or re-bound to the bare context.Background()/TODO() (then its driver calls must carry no marker and run even if the parent's context is cancelled), unless the kind shares the parent's context; optionally the other handle used first; the operation started from the parent or from the child; either context already cancelled) for %d operations x wrappers direct/tx-depth1, each executed on a fresh database; every begin/prepare/exec/query/stmt_exec/stmt_query event of the recording driver is checked for the caller's marker value; non-trivial = distinct live-context cases in which the driver saw >= 2 statements on behalf of the operation (nested statements issued through internal sessions)", len(ops), len(opcat.Writes()), handles, wraps, prepares, dialects, skips, len(deriveKinds), histOpCount),
+		"rule":                fmt.Sprintf("every operation of the catalogue (%d: %d writes, reads/preloads/joins/FindInBatches/raw, association mode) x handle binding %v x wrapper %v x PrepareStmt %v x {live, already cancelled} context x dialector %v x SkipDefaultTransaction %v (quick additionally runs every write operation on the dialector without RETURNING and with SkipDefaultTransaction, so that both executor branches exec / RETURNING-scan of every write finisher are reached in every mode), plus handle-derivation histories (parent bound to one context; child := parent.<%d derivation kinds: Session{NewDB,Context}, Session{Context}, WithContext, Session{PrepareStmt,Context}, …, Begin, Debug>, bound to another marked context, or re-bound to the bare context.Background()/TODO() (then its driver calls must carry no marker and run even if the parent's context is cancelled), unless the kind shares the parent's context; optionally the other handle used first; the operation started from the parent or from the child; either context already cancelled) for %d operations x wrappers direct/tx-depth1, each executed on a fresh database; every begin/prepare/exec/query/stmt_exec/stmt_query event of the recording driver is checked for the caller's marker value; non-trivial = distinct live-context cases in which the driver saw >= 2 statements on behalf of the operation (nested statements issued through internal sessions)", len(ops), len(opcat.Writes()), handles, wraps, prepares, dialects, skips, len(deriveKinds), histOpCount),
 		"samples":             samples.List(),
 		"exhaustive":          atomic.LoadInt32(&capped) == 0,
 		"operations":          len(ops),
@@ -785,6 +829,7 @@ func main() {
 		"live_operations_on_parent_after_deriving_child":  st.parentAfterChild,
 		"live_operations_beside_cancelled_other_context":  st.liveBesideCancelled,
 		"operations_from_child_rebound_to_bare_context":   st.bareChild,
+		"watchdog_hangs_not_reproduced":                   atomic.LoadInt64(&hangsNotReproduced),
 		"live_cases":          st.live,
 		"cancelled_cases":     st.cancelled,
 		"driver_calls_checked":                  st.events,
